@@ -1,4 +1,5 @@
 import Tibc.Lemmas.OriginAck
+import Tibc.Lemmas.HostKeys
 /-
   C03 — Acknowledgements are authentic, written once and processed at most once.
   PROPERTY THEOREMS ONLY.
@@ -243,5 +244,21 @@ theorem ack_processed_at_most_once (ops : List Op) (hns : ∀ op ∈ ops, op.sel
     exact ih (fun op' hop' => hns op' (List.mem_cons_of_mem _ hop')) _
       (fun q => step_ackInv H Hc w op (hall op (by simp)) hw q)
       (fun op' hop' => hall op' (List.mem_cons_of_mem _ hop'))
+
+/-- **Store keys of acknowledgements**: one slot per `(source, destination, sequence)`, disjoint
+    from commitments and receipts (chain names contain no `/`). -/
+theorem ack_key_injective {src src' dst dst' : Str} {n n' : Nat}
+    (hs : '/' ∉ src) (hd : '/' ∉ dst) (hs' : '/' ∉ src') (hd' : '/' ∉ dst')
+    (h : Host.packetAcknowledgementPath src dst n = Host.packetAcknowledgementPath src' dst' n') :
+    src = src' ∧ dst = dst' ∧ n = n' :=
+  (Host.seqPath_injective (by decide) hs hd (by decide) hs' hd' h).2
+
+theorem ack_key_family_disjoint {src src' dst dst' : Str} {n n' : Nat}
+    (hs : '/' ∉ src) (hd : '/' ∉ dst) (hs' : '/' ∉ src') (hd' : '/' ∉ dst') :
+    Host.packetAcknowledgementPath src dst n ≠ Host.packetCommitmentPath src' dst' n' ∧
+    Host.packetAcknowledgementPath src dst n ≠ Host.packetReceiptPath src' dst' n' := by
+  refine ⟨?_, ?_⟩
+  · intro h; have := (Host.seqPath_injective (by decide) hs hd (by decide) hs' hd' h).1; revert this; decide
+  · intro h; have := (Host.seqPath_injective (by decide) hs hd (by decide) hs' hd' h).1; revert this; decide
 
 end Tibc.C03
